@@ -608,7 +608,7 @@ def attach_pragma_regions(ir, keyword=None):
         pragmas = [pragma for pragma in pragmas if pragma.keyword.lower() == keyword.lower()]
     pragma_pairs = get_matching_region_pragmas(pragmas)
 
-    return PragmaRegionAttacher(pragma_pairs=pragma_pairs, inplace=True).visit(ir)
+    return PragmaRegionAttacher(pragma_pairs=pragma_pairs, inplace=True, invalidate_source=False).visit(ir)
 
 
 class PragmaRegionDetacher(Transformer):
@@ -648,7 +648,7 @@ def detach_pragma_regions(ir):
     nodes.
     """
 
-    return PragmaRegionDetacher(inplace=True).visit(ir)
+    return PragmaRegionDetacher(inplace=True, invalidate_source=False).visit(ir)
 
 
 @contextmanager
